@@ -73,6 +73,86 @@ func decideConstEq(cond ssa.Value, isSubject func(ssa.Value) bool, chosen string
 
 // evalTable explores fn for each (operator, situation) cell; decideCall gives the abstract result of the comparison
 // primitives in that situation. Returns table[op][situation] = "T" | "F" | "panic" | "?".
+// c15Bind maps the parameters of a helper being evaluated on behalf of a comparison function to the values it was
+// called with; the call deciders look at arguments through c15Arg so that `notBefore(objectVal, dayStart)` written as
+// a helper is the same thing as the two calls it contains.
+var c15Bind = map[*ssa.Parameter]ssa.Value{}
+
+func c15Arg(v ssa.Value) ssa.Value {
+	for k := 0; k < 4; k++ {
+		prm, ok := v.(*ssa.Parameter)
+		if !ok {
+			break
+		}
+		a, ok := c15Bind[prm]
+		if !ok {
+			break
+		}
+		v = a
+	}
+	return v
+}
+
+// c15Helper evaluates a boolean helper of the same package for one situation: T, F, or "" when it is not determined.
+func c15Helper(call *ssa.Call, from *ssa.Function, sit string, decideCall func(c *ssa.Call, situation string) core.AB, depth int) core.AB {
+	h := call.Call.StaticCallee()
+	if h == nil || h.Blocks == nil || depth > 1 || core.FuncPkgPath(h) != core.FuncPkgPath(from) || h.Signature.Results().Len() != 1 {
+		return core.Unk
+	}
+	if b, ok := h.Signature.Results().At(0).Type().Underlying().(*types.Basic); !ok || b.Kind() != types.Bool {
+		return core.Unk
+	}
+	saved := map[*ssa.Parameter]ssa.Value{}
+	for i, fp := range h.Params {
+		if i < len(call.Call.Args) {
+			if old, had := c15Bind[fp]; had {
+				saved[fp] = old
+			}
+			c15Bind[fp] = c15Arg(call.Call.Args[i])
+		}
+	}
+	defer func() {
+		for _, fp := range h.Params {
+			delete(c15Bind, fp)
+		}
+		for k, v := range saved {
+			c15Bind[k] = v
+		}
+	}()
+	result := core.Unk
+	mixed := false
+	core.ExplorePaths(h, core.PathRules{
+		OnCall: func(s *core.PathState, c ssa.CallInstruction) []core.CallOutcome {
+			cc, ok := c.(*ssa.Call)
+			if !ok {
+				return nil
+			}
+			if d := decideCall(cc, sit); d != core.Unk {
+				return []core.CallOutcome{{Result: d}}
+			}
+			if d := c15Helper(cc, h, sit, decideCall, depth+1); d != core.Unk {
+				return []core.CallOutcome{{Result: d}}
+			}
+			return nil
+		},
+		OnExit: func(s *core.PathState, ret *ssa.Return, pan *ssa.Panic) {
+			if ret == nil {
+				mixed = true
+				return
+			}
+			v := s.Val(ret.Results[0])
+			if v == core.Unk || (result != core.Unk && result != v) {
+				mixed = true
+			}
+			result = v
+		},
+	})
+	if mixed {
+		return core.Unk
+	}
+	return result
+}
+
 func evalTable(fn *ssa.Function, ops map[string]string, situations []string, decideCall func(c *ssa.Call, situation string) core.AB) map[string]map[string]string {
 	table := map[string]map[string]string{}
 	for _, opText := range ops {
@@ -96,6 +176,9 @@ func evalTable(fn *ssa.Function, ops map[string]string, situations []string, dec
 						return nil
 					}
 					if d := decideCall(call, sit); d != core.Unk {
+						return []core.CallOutcome{{Result: d}}
+					}
+					if d := c15Helper(call, fn, sit, decideCall, 0); d != core.Unk {
 						return []core.CallOutcome{{Result: d}}
 					}
 					return nil
@@ -159,7 +242,7 @@ func checkC15(p *core.Program, r *core.Report) {
 		if o == nil || o.Pkg() == nil || o.Pkg().Path() != "github.com/shopspring/decimal" || len(c.Call.Args) != 2 {
 			return core.Unk
 		}
-		a, b := c.Call.Args[0], c.Call.Args[1]
+		a, b := c15Arg(c.Call.Args[0]), c15Arg(c.Call.Args[1])
 		rel := sit
 		switch {
 		case a == ssa.Value(objN) && b == ssa.Value(qryN):
@@ -222,10 +305,10 @@ func checkC15(p *core.Program, r *core.Report) {
 		if o == nil || o.Pkg() == nil || o.Pkg().Path() != "time" || len(c.Call.Args) != 2 {
 			return core.Unk
 		}
-		if c.Call.Args[0] != ssa.Value(objD) {
+		if c15Arg(c.Call.Args[0]) != ssa.Value(objD) {
 			return core.Unk
 		}
-		b := bound(c.Call.Args[1])
+		b := bound(c15Arg(c.Call.Args[1]))
 		if b == "" {
 			return core.Unk
 		}
